@@ -235,7 +235,11 @@ static void run(char, Choice &c, Ctx &cx)
 #else
     const bool own_process = !in_child();
 #endif
+#ifdef VF_TSAN_BUILD
+    Pristine pr_none; pr_none.dead = true; Pristine &pr = pr_none;   // no helper process in the race-detector build
+#else
     Pristine &pr = pristine();   // forked before this process first enters the library
+#endif
     std::vector<Job> jobs = decode_jobs(c);
     int njobs = (int)jobs.size();
     cx.hash = fnv1a(c.d, c.consumed(), 0xC09ULL);
